@@ -90,6 +90,17 @@ class Plan:
             self.responses = [] if self.error else [_resp(md, out_cls, reqs, "single")]
 
 
+def _harness_origin(e: BaseException) -> bool:
+    """True if the innermost frame of the traceback is a file of /verif/sim itself."""
+    tb, last = e.__traceback__, None
+    while tb is not None:
+        last, tb = tb, tb.tb_next
+    if last is None:
+        return False
+    here = os.path.dirname(os.path.abspath(__file__))
+    return os.path.abspath(last.tb_frame.f_code.co_filename).startswith(here)
+
+
 class _Call:
     __slots__ = ("idx", "svc", "md", "kind", "reqs", "req_bytes", "cfg", "t0", "outcome", "received", "error",
                  "expected_plan", "overridden", "call_id", "fault", "done", "src_kind", "t_end", "stub_t")
@@ -380,6 +391,8 @@ class _Run:
                 c.outcome = "cancelled"
                 raise
             except Exception as e:  # noqa: BLE001
+                if _harness_origin(e):
+                    raise                       # a bug of this harness is never judged as the call's outcome
                 c.outcome = "exception"
                 c.error = (type(e).__name__, str(e)[:200])
             finally:
@@ -433,7 +446,8 @@ class _Run:
         try:
             return self._go()
         except Budget as b:
-            raise Violation("C11.H6", "budget", f"the simulated world did not settle: {b}")
+            # a cap of the simulator, not a sentence of C11: reported as a harness outcome (exit 2)
+            raise RuntimeError(f"BUDGET: the simulated world did not settle: {b}")
         finally:
             try:
                 self._teardown()
